@@ -128,7 +128,7 @@ func ruleParseTime(c *Ctx) {
 		c.Note("the parser could not be folded on symbolic inputs (" + pf.why + "); PT-FIELDS, PT-SEP, PT-DATE and PT-REM are decided from the shape of parseTime itself")
 		ptStructural(c, fn, in, full, dateOnly)
 	}
-	ptRest(c, fn, in, full, dateOnly)
+	ptRest(c, fn, in, full, dateOnly, pf)
 }
 
 // ptStructural: PT-FIELDS, PT-SEP, PT-DATE and PT-REM read off the body of parseTime (used when the fold
@@ -221,12 +221,23 @@ func ptStructural(c *Ctx, fn *ssa.Function, in *ssa.Parameter, full, dateOnly *s
 	}
 }
 
-func ptRest(c *Ctx, fn *ssa.Function, in *ssa.Parameter, full, dateOnly *ssa.Call) {
+func ptRest(c *Ctx, fn *ssa.Function, in *ssa.Parameter, full, dateOnly *ssa.Call, pf *ptFold) {
 	P := c.P
 	key := fnKey(fn)
+	// what the second stage of the fold decided (values as tables of the input's bytes) replaces the
+	// reading of shapes below
+	deep := func(k string) (string, bool) {
+		if pf == nil || !pf.ok || pf.deep == nil || !pf.deep.ok {
+			return "", false
+		}
+		pr, seen := pf.deep.problem[k]
+		return pr, seen
+	}
 	// ---- TS-FRAC
 	c.Rule("TS-FRAC", "the scale factor that is divided once per fraction digit is guarded inside the loop, so more than nine digits cannot drive it to zero and silently erase the fraction", 1)
-	{
+	if pr, ok := deep("fraction-value"); ok {
+		c.Check(pr == "", key+"/fraction-scale", P.pos(fn.Pos()), "for one to twelve fraction digits the nanoseconds are the first nine digits scaled to 10^-9, further digits ignored (folded: the value is compared as a table over the digits)", pr)
+	} else {
 		found := false
 		var scopeLoops []*Loop
 		for _, f := range ptScope(P, fn) {
@@ -364,7 +375,19 @@ func ptRest(c *Ctx, fn *ssa.Function, in *ssa.Parameter, full, dateOnly *ssa.Cal
 
 	// ---- TZ-SIGN
 	c.Rule("TZ-SIGN", "a numeric zone is sign * (hours*3600 + minutes*60) seconds, hours and minutes being the digits around the colon, '+' east and '-' west", 3)
-	{
+	if _, ok := deep("zone-offset"); ok {
+		for _, k := range []struct{ k, good string }{
+			{"zone-offset", "the offset handed to the zone lookup is 36000a+3600b+600c+60d of the zone's digits ab:cd, the ':' checked, and the lookup's result is the location of the time returned"},
+			{"zone-sign", "'+' gives the positive and '-' the negative offset; nothing else reaches the lookup"},
+			{"zone-Z", "'Z' selects time.UTC"}} {
+			pr, seen := deep(k.k)
+			if !seen {
+				c.Unk(key+"/"+k.k, P.pos(fn.Pos()), "the fold gave no answer")
+				continue
+			}
+			c.Check(pr == "", key+"/"+k.k, P.pos(fn.Pos()), k.good+" (folded)", pr)
+		}
+	} else {
 		var gz *ssa.Call
 		zfn := fn // the function the zone suffix is parsed in: the parser itself or a helper of it
 		for _, f := range ptScope(P, fn) {
@@ -1027,4 +1050,38 @@ func ptEmitFold(c *Ctx, fn *ssa.Function, pf *ptFold) {
 	emit("date/midnight-utc", "a 10-byte input ends in time.Date(y, m, d, 0, 0, 0, 0, time.UTC)")
 	c.Rule("PT-REM", "a date-time is accepted only when nothing is left over after the zone", 1)
 	emit("date-time/nothing-left", "no 21- or 26-byte input without a fraction is accepted")
+	ptEmitDeep(c, fn, pf)
+}
+
+// ptEmitDeep: PT-DIGITS and PT-ACCEPT from the second stage of the fold (rules_ptdeep.go).
+func ptEmitDeep(c *Ctx, fn *ssa.Function, pf *ptFold) {
+	key := fnKey(fn)
+	pd := pf.deep
+	emit := func(k, good string) {
+		if pd == nil || !pd.ok {
+			why := "the fold did not run"
+			if pd != nil {
+				why = pd.why
+			}
+			c.Unk(key+"/"+k, pf.pos, "not decided: "+why)
+			return
+		}
+		bad, seen := pd.problem[k]
+		switch {
+		case !seen:
+			c.Unk(key+"/"+k, pf.pos, "the fold gave no answer")
+		case bad == "":
+			c.OK(key+"/"+k, pf.pos, good)
+		default:
+			c.Bad(key+"/"+k, pf.pos, bad)
+		}
+	}
+	c.Rule("PT-DIGITS", "a byte of a numeric field is accepted exactly when it is '0'-'9', and the number handed on is the decimal value of the field's digits", 7)
+	for _, f := range []string{"year", "month", "day", "hour", "minute", "second", "zone"} {
+		emit("digits/"+f, "on every accepting path the bytes of the field are exactly '0'-'9' and the value is their decimal number (tables over all 256 byte values)")
+	}
+	c.Rule("PT-ACCEPT", "no rejecting path is consistent with a well-formed timestamp whose fields are in range: what the standard library accepts is not refused", 5)
+	for _, f := range []string{"date", "date-time-Z", "date-time-offset", "fraction-Z", "fraction-offset"} {
+		emit("accepts/"+f, "every rejecting path contradicts well-formedness or an in-range field (month 01-12, day 01-28, hour 00-23, minute, second 00-59, zone 00-23:00-59)")
+	}
 }
